@@ -20,7 +20,7 @@ def check(chk, thorough=False):
     chk.run('C12.a', 'R-SCHEMA', 'receive chain order: routing < reassembly < BCB < BIB < every application step; the chain is sorted by order', lambda ob: c12a(tree, ob), floor=8)
     chk.run('C12.b', 'R-NOPATH', 'any failure entry withdraws deliver, records delete with a reason and interrupts the chain; unknown context and exceptions become failure entries', lambda ob: c12b(tree, ob), floor=10)
     chk.run('C12.c', 'R-NOPATH', 'the chain runner stops running steps after a step raised', lambda ob: c12c(tree, ob), floor=1)
-    chk.run('C12.d', 'R-FLOW', 'verdicts are fail-closed (= C03.c for BIB, C16.b for BCB); the verifier checks the actual target data (= C03.a)', lambda ob: (c03c(tree, ob, 'bib'), c16b(tree, ob), c03a(tree, ob, 'apply_bib')), floor=20)
+    chk.run('C12.d', 'R-FLOW', 'verdicts are fail-closed (= C03.c for BIB, C16.b for BCB); the verifier checks the actual target data (= C03.a)', lambda ob: (c03c(tree, ob, 'bib'), c16b(tree, ob), c03a(tree, ob, 'apply_bib'), c12_params(tree, ob)), floor=20)
     chk.run('C12.e', 'R-ITER', 'every security block of the bundle is visited: the loops are not invalidated by removal of accepted blocks', lambda ob: c12e(tree, ob), floor=2)
     chk.run('C12.g', 'R-FLOW', 'duplicate parameter / result ids are really detected: the id collections compared with their de-duplicated size are lists', lambda ob: c12g(tree, ob), floor=2)
     chk.run('C12.f', 'R-TYPE', 'the recorded deletion reason is a reason code (integer) on every path', lambda ob: c12f(tree, ob), floor=2)
@@ -72,6 +72,35 @@ def c12a(tree, ob):
         ob.violate(AGENT, fr.qual, 'for step in ' + (src(lps[0].iter) if lps else '?'), 'receive steps are not run in chain order', fr.func)
 
 
+def _type_code(tree, clsname):
+    for rel in ('bp/encoding/blocks.py', 'bp/encoding/bpsec.py'):
+        for node in tree.module(rel).tree.body:
+            if isinstance(node, ast.ClassDef) and node.name == clsname:
+                for d in node.decorator_list:
+                    got = pm('CanonicalBlock.bind_type($n)', d)
+                    if got is not None and isinstance(got['n'], ast.Constant):
+                        return got['n'].value
+    raise AnalysisError('type code of {} not found'.format(clsname))
+
+
+def c12_params(tree, ob):
+    ''' The parameter field of a security block is absent (None) when the context flags say so - legal, the COSE context
+    then uses its default scope.  Iterating it unguarded raises TypeError, which the verify step turns into a failure. '''
+    n = 0
+    for qual in ('CoseSecOpCtx.check_secblk', 'CoseSecOpCtx.extract_secblk'):
+        fv = FuncView(tree, SEC, qual)
+        iters = [x.iter for x in ast.walk(fv.func) if isinstance(x, (ast.For, ast.comprehension))]
+        for it in iters:
+            if src(it).endswith('.payload.parameters'):
+                ob.violate(SEC, qual, 'for ... in ' + src(it), 'the optional parameter field is iterated without a guard: a correctly signed bundle whose security block declares no parameters '
+                           'fails with TypeError and is deleted', it)
+                n += 1
+            elif '.payload.parameters' in src(it):
+                ob.site(SEC, it, qual + ': absent parameter field tolerated')
+                n += 1
+    ob.require(n >= 2, 'parameter iterations not found')
+
+
 def c12b(tree, ob):
     for (meth, call, cls) in (('_verify_bcb', 'verify_bcb', 'BlockConfidentialityBlock'), ('_verify_bib', 'verify_bib', 'BlockIntegrityBlock')):
         fv = FuncView(tree, SEC, 'Bpsec.' + meth)
@@ -118,13 +147,29 @@ def c12b(tree, ob):
         loops = [n for n in walk_local(fv.func) if isinstance(n, ast.For)]
         lp = one(loops, 'security block loop in ' + meth, ob)
         body0 = fv.node(lp.body[0])
-        okc = fv.cfg.must_pass(body0, fv.node(lp.iter), {fv.node(a), *[n for n in fv.cfg.nodes if n.kind == 'cond' and norm.atom(n.ast)[0] == 'result is None']}, include_exc=False)[0]
+        # (an undecodable block is collected as a failure directly, with its own append)
+        direct = {fv.node(x) for x in calls_in(lp) if pm('failure.append($r)', x) is not None and x is not a and 'FAILED_SEC' in src(x)}
+        okc = fv.cfg.must_pass(body0, fv.node(lp.iter), {fv.node(a), *direct, *[n for n in fv.cfg.nodes if n.kind == 'cond' and norm.atom(n.ast)[0] == 'result is None']}, include_exc=False)[0]
         if not okc:
             ob.violate(SEC, q, src(a), 'an iteration can skip collecting its result', a)
         else:
             ob.site(SEC, a, meth + ': every non-None result is collected')
         itv = fv.value_at(lp.iter, lp)
-        if pm('ctr.block_type({})'.format(cls), itv) is None and pm('list(ctr.block_type({}))'.format(cls), itv) is None and pm('tuple(ctr.block_type({}))'.format(cls), itv) is None:
+        code = _type_code(tree, cls)
+        by_cls = any(pm(pat.format(cls), itv) is not None for pat in ('ctr.block_type({})', 'list(ctr.block_type({}))', 'tuple(ctr.block_type({}))'))
+        by_code = any(pm(pat.format(code), itv) is not None for pat in ('ctr.block_type({})', 'list(ctr.block_type({}))', 'tuple(ctr.block_type({}))'))
+        if by_cls:
+            ob.violate(SEC, q, 'for ... in ' + src(itv), 'the {0} blocks are looked up by payload class: a security block whose data does not decode is indexed under its type code only, is never '
+                       'examined, and the bundle is delivered'.format(cls), lp)
+        elif by_code:
+            # then a block of that type whose payload is not the security block class is a failure
+            und = [x for x in direct if any(t == 'isinstance({}.payload, {})'.format(src(lp.target), cls) and p is False for (t, p) in (fv.cfg.facts(fv._kill_fn(), fv._gen_fn())[0].get(x) or ()))] if False else \
+                [x for x in calls_in(lp) if pm('failure.append($r)', x) is not None and fv.has(x, 'isinstance({}.payload, {})'.format(src(lp.target), cls), False)]
+            if und:
+                ob.site(SEC, und[0], meth + ': a block of type {} that does not decode is a security failure'.format(code))
+            else:
+                ob.violate(SEC, q, 'undecodable {}'.format(cls), 'a block of type {} whose data does not decode as {} is not treated as a failure'.format(code, cls), lp)
+        elif True:
             ob.violate(SEC, q, 'for ... in ' + src(itv), 'the loop does not visit the {} blocks of the bundle'.format(cls), lp)
         # unknown context
         unk = [st for (st, v) in norm.local_assigns(fv.func, 'result') if fv.has(st, 'ctx is None', True)]
